@@ -161,6 +161,8 @@ family(
         _t('a', [P('x')]),
         _t('b', [], [('a', 'class')], ['a']),
         _t('top', [], [('lo::b', 'name'), ('a', 'class')], ['a'], registry_pulls=['lo::b']),
+        # reads the same task from TWO namespaces below it: which mount carries which computation matters
+        _t('cmp', [], [('p1::a', 'name'), ('p2::a', 'name')], [], registry_pulls=['p1::a', 'p2::a']),
     ],
     rcs={
         'v1': dict(build='nested-files', mounts=[dict(ns=None, values={'x': 1}, tasks=['a', 'b'])]),
@@ -168,8 +170,19 @@ family(
                                                  dict(ns='lo', values={'x': 1}, tasks=['a', 'b'])]),
         'v3': dict(build='nested-files', mounts=[dict(ns=None, values={'x': 2}, tasks=['a', 'top']),
                                                  dict(ns='lo', values={'x': 2}, tasks=['a', 'b'])]),
+        # the configuration v2, itself mounted one level down (`as mid`): mid::top reads mid::lo::b - the same computations
+        'v4': dict(build='nested-files', mounts=[dict(ns=None, values={}, tasks=[]),
+                                                 dict(ns='mid', values={'x': 2}, tasks=['a', 'top']),
+                                                 dict(ns='mid::lo', values={'x': 1}, tasks=['a', 'b'])]),
+        # one consumer over two mounts, the computations exchanged between them
+        's12': dict(build='nested-files', mounts=[dict(ns=None, values={}, tasks=['cmp']),
+                                                  dict(ns='p1', values={'x': 1}, tasks=['a']),
+                                                  dict(ns='p2', values={'x': 2}, tasks=['a'])]),
+        's21': dict(build='nested-files', mounts=[dict(ns=None, values={}, tasks=['cmp']),
+                                                  dict(ns='p1', values={'x': 2}, tasks=['a']),
+                                                  dict(ns='p2', values={'x': 1}, tasks=['a'])]),
     },
-    lists=[['v1'], ['v2'], ['v3'], ['v1', 'v2'], ['v2', 'v3']],
+    lists=[['v1'], ['v2'], ['v3'], ['v4'], ['s12'], ['s21'], ['v1', 'v2'], ['v2', 'v3'], ['v2', 'v4'], ['s12', 's21']],
 )
 
 
